@@ -4,6 +4,7 @@ import (
 	"crypto/x509"
 	"encoding/asn1"
 	"fmt"
+	"net/http"
 	"os"
 	"sync/atomic"
 	"testing"
@@ -322,8 +323,17 @@ func runCase(c Case, x *ev.Ctx) error {
 			case "http500":
 				o.Status("/ca.crl", 500, "down")
 			case "truncated":
-				e := encode(offered)
-				o.Serve("/ca.crl", e[:len(e)/2])
+				// the FIRST request gets the first half of another (unauthentic) list whose entries - among them the
+				// ghost serial 0d - come before the cut; every later request gets the offered document
+				ghost := mkSpec(unrelated, ca.Cert.RawSubject, algFor(unrelated.Key), "0d", "0a", "0b", "e1", "e2", "e3", "e4", "e5", "e6", "e7", "e8")
+				g := encode(ghost.MustBuild(unrelated.Key))
+				o.Set("/ca.crl", func(w http.ResponseWriter, r *http.Request, _ []byte, n int) {
+					if n == 1 {
+						w.Write(g[:len(g)*2/3])
+						return
+					}
+					w.Write(encode(offered))
+				})
 			case "same":
 				o.Serve("/ca.crl", encode(offered))
 			}
@@ -416,6 +426,10 @@ func runCase(c Case, x *ev.Ctx) error {
 		if was && !inForce {
 			return fmt.Errorf("list in force before another CA's client connected is not in force afterwards (forgery=%s intake=%s)", c.Forgery, c.Intake)
 		}
+	}
+	// entries of a document that was never accepted must not be in force under any circumstances
+	if v := world.Ask(ch, leaf("0d")); v.Kind == "revoked" {
+		return fmt.Errorf("serial 0d is revoked although it is listed only in a document that was never accepted (first attempt: %s, forgery %s, intake %s)", c.FailFirst, c.Forgery, c.Intake)
 	}
 	x.Classf("forgery=%s", c.Forgery)
 	x.Classf("intake=%s", c.Intake)
